@@ -409,7 +409,9 @@ def native_lib():
         os.makedirs(d)
         ensure_cfg()
         def cc(f):
-            return sh(["gcc", "-c", "-fPIC"] + SAN + incl_flags() + [os.path.join(SRC, f), "-o", os.path.join(d, f[:-2] + ".o")], cwd=d, timeout=600, mem_gb=64)
+            # datasets.c is a large table of literals: instrumenting it takes tens of minutes and it contains no code under test
+            san = ["-g", "-O0", "-w"] if f == "datasets.c" else SAN
+            return sh(["gcc", "-c", "-fPIC"] + san + incl_flags() + [os.path.join(SRC, f), "-o", os.path.join(d, f[:-2] + ".o")], cwd=d, timeout=600, mem_gb=64)
         with ThreadPoolExecutor(max_workers=NCPU) as ex:
             rs = list(ex.map(cc, srcs))
         for (rc, out, _), f in zip(rs, srcs):
